@@ -102,6 +102,13 @@ func Aggregate[P curves.Point[P, B, S], B algebra.PrimeFieldElement[B], S algebr
 	if len(partialSignatures) == 0 {
 		return nil, ErrFailed.WithMessage("no partial signatures provided")
 	}
+	// Partial signatures arrive over the wire: CBOR null decodes into a nil *PartialSignature,
+	// which must be refused here rather than dereferenced below.
+	for i, partialSignature := range partialSignatures {
+		if partialSignature == nil || utils.IsNil(partialSignature.r) || utils.IsNil(partialSignature.u) || utils.IsNil(partialSignature.w) {
+			return nil, ErrFailed.WithMessage("partial signature %d is nil or has a missing component", i)
+		}
+	}
 	w := suite.ScalarField().Zero()
 	u := suite.ScalarField().Zero()
 
